@@ -18,10 +18,14 @@ MALFORMED = ["Foo.dsdl", "Foo.1.dsdl", "Foo.1.0.0.0.dsdl", "1.2.Foo.1.0.dsdl", "
              "Foo.1.0rc1.dsdl", "Foo.1x.0.dsdl", "Foo.1.0-draft.dsdl", "7509abc.Foo.1.0.dsdl", "Foo.x1.0.dsdl", "Foo.1.v0.dsdl", "p7509.Foo.1.0.dsdl",
              "Foo.1.0b.uavcan", "75a09.Foo.1.0.dsdl", "Foo.1e0.0.dsdl", "Foo.0x1.0.dsdl", "Foo.1.0~.dsdl",
              # hidden entries (editor lock files, AppleDouble files): still files named *.dsdl / *.uavcan under the root
-             ".Status.1.0.dsdl", "._Status.1.0.dsdl", ".7000.Pin.1.0.dsdl", ".Status.1.0.uavcan", ".#Status.1.0.dsdl"]
-# shaped like <ShortName>.<major>.<minor> with an EMPTY short name: rejected (as an invalid name) when the definition is read, that is
-# in the target role; a directory that is only searched for dependencies never reads it, so nothing is demanded there
-LATE_REJECTED = {".1.0.dsdl"}
+             ".Status.1.0.dsdl", "._Status.1.0.dsdl", ".7000.Pin.1.0.dsdl", ".Status.1.0.uavcan", ".#Status.1.0.dsdl",
+             # numeric fields that are numbers, but not ones a port-ID / version can be (signed, out of range, version 0.0)
+             "-5.Foo.1.0.dsdl", "-1.Foo.0.1.dsdl", "Foo.-1.0.dsdl", "Foo.1.-1.dsdl", "8192.Foo.1.0.dsdl", "Foo.256.0.dsdl", "Foo.1.256.dsdl", "Foo.0.0.dsdl",
+             "-8191.Foo.1.0.uavcan", "65536.Foo.1.0.dsdl"]
+# shaped like [<port-id>.]<ShortName>.<major>.<minor> with an EMPTY short name or a number that no port-ID / version can be: rejected
+# (invalid name / port-ID / version) when the definition is read, that is in the target role; a directory that is only searched for dependencies never reads it, so nothing is demanded there
+LATE_REJECTED = {".1.0.dsdl", "-5.Foo.1.0.dsdl", "-1.Foo.0.1.dsdl", "Foo.-1.0.dsdl", "Foo.1.-1.dsdl", "8192.Foo.1.0.dsdl", "Foo.256.0.dsdl", "Foo.1.256.dsdl", "Foo.0.0.dsdl",
+                 "-8191.Foo.1.0.uavcan", "65536.Foo.1.0.dsdl"}
 BAD_DIRS = ["a.b", "x.1", "dot.ted", ".drafts", ".git", ".hidden_ns"]
 
 # designations of (targets, roots) for read_files; "supported" ones must succeed, "open" ones are checked for soundness only
@@ -44,7 +48,7 @@ class C15(Check):
             "malformed kind, decoy present); non-trivial = depth >= 1 and a non-absolute designation or an alias was used, or a "
             "malformed name was present")
     TIERS = {"quick": {"runs": 1600, "budget_s": 50}, "thorough": {"runs": 80000, "budget_s": 900}}
-    ASSUMPTIONS = ["a file name with an empty short name (.1.0.dsdl) is demanded to be rejected only where the definition is read (target role)",
+    ASSUMPTIONS = ["a file name with an empty short name (.1.0.dsdl) or with an out-of-range / signed number is demanded to be rejected only where the definition is read (target role)",
                    "numeric components that only Python's int() accepts (+1, 1_0, leading zeros, non-ASCII digits) are not generated",
                    "a bare root name with a RELATIVE target is only used when no ancestor directory has the same name and no other directory of that name exists under cwd (otherwise the designation is ambiguous); with an absolute target the working directory may hold an unrelated entry of that name"]
 
